@@ -6,6 +6,7 @@ import ErgoProofs.Lemmas.JsonThm
 import ErgoProofs.Lemmas.ReachInv
 import ErgoProofs.Lemmas.CodecInst
 import ErgoProofs.Lemmas.InputThm
+import ErgoProofs.Lemmas.StampFree
 namespace Ergo
 
 /-- the JSON string codec round-trips every valid Unicode text, with the log's HTML-escaping encoder and with the
@@ -99,5 +100,13 @@ theorem C17_utf8_roundtrip (cs : List Char) : Codec.utf8DecLossy (Codec.utf8Enc 
 theorem C17_stdin_document_roundtrip (t : TaskInput) (hne : Input.taskInputMembers t ≠ []) (tail : Storage.Bytes) (ht : Codec.skipWs tail = []) :
     Input.parseTaskInput (Input.encTaskInput t ++ tail) = some t :=
   Input.parseTaskInput_enc t hne tail ht
+
+/-- which title and body an item has follows from the order of the lines, never from how their stamps compare: an edit recorded after an
+    earlier edit wins, whatever the two stamps say -/
+theorem C17_text_follows_line_order_not_stamps {l l' : List Event} (h : SameLines l l') {g g' : Graph}
+    (hr : replay l = .ok g) (hr' : replay l' = .ok g') (id : Id) :
+    (g.find? id).map (fun t => (t.title, t.body)) = (g'.find? id).map (fun t => (t.title, t.body)) := by
+  have := congrArg (Option.map fun t : Task => (t.title, t.body)) ((stamp_free_items h hr hr').1 id)
+  simpa [Option.map_map, Function.comp_def, Task.untimed] using this
 
 end Ergo
